@@ -107,3 +107,35 @@ func genC10Helper() {
 	b.WriteString("]\n\nend Hertz.Gen.ClientHelper\n")
 	write("ClientHelper.lean", b.String())
 }
+
+// C02/C14: the calls on the connection reader inside bodyStream.skipChunkLeft and bodyStream.skipRest, in source
+// order, written to lean/Hertz/Gen/SkipRest.lean.  Props.C02.drain_calls_match_source pins them: a
+// `rs.reader.Skip(chunkSize)` of a whole declared chunk (which fails when the chunk has not arrived completely) would
+// reappear in this list.
+func genSkipRest() {
+	fset, f := parseFile("pkg/protocol/http1/ext/stream.go")
+	var b strings.Builder
+	b.WriteString("namespace Hertz.Gen.SkipRest\n\n/-- (method, call) in source order: calls on `rs.reader`, of `utils.*`, `SkipTrailer`, and of other methods of the stream -/\ndef calls : List (String × String) := [\n")
+	var rows []string
+	for _, name := range []string{"skipChunkLeft", "skipRest"} {
+		fd := findFunc(f, "bodyStream", name)
+		if fd == nil {
+			rows = append(rows, fmt.Sprintf("  (%s, %s)", leanStr(name), leanStr("UNTRANSLATED: not found")))
+			continue
+		}
+		ast.Inspect(fd.Body, func(n ast.Node) bool {
+			ce, ok := n.(*ast.CallExpr)
+			if !ok {
+				return true
+			}
+			s := src(fset, ce)
+			if strings.HasPrefix(s, "rs.reader.") || strings.HasPrefix(s, "utils.") || strings.HasPrefix(s, "SkipTrailer(") || strings.HasPrefix(s, "rs.skip") {
+				rows = append(rows, fmt.Sprintf("  (%s, %s)", leanStr(name), leanStr(s)))
+			}
+			return true
+		})
+	}
+	b.WriteString(strings.Join(rows, ",\n"))
+	b.WriteString("\n]\n\nend Hertz.Gen.SkipRest\n")
+	write("SkipRest.lean", b.String())
+}
